@@ -12,7 +12,7 @@ from . import synth
 
 
 def gen_cp_events(seed: int, n_steps: int = 2, n_streams: int = 2, sync_records: bool = True, q: int = 5, base: int = 1_000_000, annotations: bool = False,
-                  n_threads: int = 1, frac_kernels: bool = False, python_frames: bool = False) -> List[Dict[str, Any]]:
+                  n_threads: int = 1, frac_kernels: bool = False, python_frames: bool = False, old_nccl: bool = False) -> List[Dict[str, Any]]:
     """n_threads=2 adds a second host thread (larger tid) whose operators run concurrently with the main thread's inside
     every step and launch kernels on a stream of their own; kernels that a device-wide synchronisation of the main thread
     would have to wait for beyond its return are not generated (causal consistency)."""
@@ -102,7 +102,8 @@ def gen_cp_events(seed: int, n_steps: int = 2, n_streams: int = 2, sync_records:
                 if is_cpy:
                     k = synth.memcpy("Memcpy HtoD (Pageable -> Device)", kts, kdur, st, c, bw=3.5)
                 else:
-                    k = synth.kernel(rng.choice(["void gemm_kernel", "ncclKernel_AllReduce_RING_LL_Sum_float", "void elementwise_kernel"]), kts, kdur, st, c)
+                    k = synth.kernel(rng.choice(["void gemm_kernel", "ncclKernel_AllReduce_RING_LL_Sum_float", "void elementwise_kernel"] +
+                                                (["ncclAllReduceRingLLKernel_sum_f32(ncclColl)", "ncclBroadcastRingLLKernel_copy_i8(ncclColl)"] if old_nccl else [])), kts, kdur, st, c)  # NCCL 2.4-2.7 naming
                 kernels.append(k)
                 free[st] = math.ceil(kts + kdur) + q * rng.randint(0, 2)
                 last_end[st] = kts + kdur
